@@ -235,7 +235,8 @@ func (c *ClientConn) QueryFrame(ctx context.Context, frm *frame.Frame) (*ResultS
 	case *message.RowsResult:
 		return NewResultSet(msg, response.Header.Version), nil
 	case *message.VoidResult, *message.PreparedResult:
-		return nil, nil // TODO: Make empty result set
+		// No rows: an empty result set, so that a caller always has a result set when there is no error
+		return NewResultSet(&message.RowsResult{Metadata: &message.RowsMetadata{}}, response.Header.Version), nil
 	case message.Error:
 		return nil, &CqlError{Message: msg}
 	default:
